@@ -127,9 +127,9 @@ def run(tier, seed):
     # 1. design model: the optimize()/step() template with an abstract step - safety, then liveness
     cfg = os.path.join(wd, "design.cfg")
     if quick:
-        consts = ('1, 3', "BoxesQ1", "ObjsTwo", 1, 1)
+        consts = ('1, 3', "BoxesQ1", "ObjsOne", 1, 1)
     else:
-        consts = ('0, 1, 2, 3', "Boxes1", "ObjsAll", 1, 1)
+        consts = ('0, 1, 2, 3', "BoxesQ", "ObjsAll", 1, 1)
     _design_cfg(cfg, *consts)
     r = vc.model_check(SPEC, "Optimizer", cfg, coverage=True, timeout=2400, heap="3g", workers=min(vc.NCPU, 8))
     ck.add_model("Optimizer/safety", r, "Budgets={%s} Boxes=%s Objs=%s MaxRank=%d MaxInner=%d Pols=all" % consts)
